@@ -811,7 +811,7 @@ class DirectorHandler:
             each becomes a static tree.
             Sorted, so a parent is always registered before a child it contains,
             which turns an overlap within one call into a no-op
-            instead of a "parent directory of an existing static tree" error.
+            instead of a nested-static-trees error.
         file_paths
             Files to declare `UNCONFIRMED`,
             to be resolved to `CONFIRMED` or `MISSING` by a hash job submitted in the background.
